@@ -139,8 +139,8 @@ def paths(cx: Ctx, env, maxdepth=3):
                 go(f"{expr}[{i}]", t, d - 1)
         elif k == "R":
             for key, t in ty[1]:
-                go(f"{expr}['{key}']", t, d - 1)
-                if cx.cfg.dict_attr:
+                go(f"{expr}[{key!r}]", t, d - 1)
+                if cx.cfg.dict_attr and isinstance(key, str):
                     go(f"{expr}.{key}", t, d - 1)
         elif k == "D":
             for key, t in ty[1]:
@@ -191,7 +191,7 @@ def gen(cx: Ctx, env, ty, depth) -> str:
         p = pick_path(cx, env, ty) if cx.chance(2) else None
         if p:
             return p
-        return "{" + ", ".join(f"'{key}': {gen(cx, env, t, depth - 1)}" for key, t in ty[1]) + "}"
+        return "{" + ", ".join(f"{key!r}: {gen(cx, env, t, depth - 1)}" for key, t in ty[1]) + "}"
     if k == "D":  # record built with a dataclass / NamedTuple constructor (sugar), read by attribute
         p = pick_path(cx, env, ty) if cx.chance(2) else None
         if p:
@@ -387,6 +387,10 @@ def any_type(cx: Ctx, env, depth):
     if c == 7 and cx.cfg.containers:
         n = cx.int_(1, 3)
         kind = "D" if (cx.cfg.record_ctor and cx.chance(6)) else "R"
+        if kind == "R" and cx.chance(3):
+            # a dictionary keyed by integers (column number -> value), written in an order that is NOT the positional one
+            keys = cx.pick([(1, 0, 2), (0, 1, 2), (2, 5, 0), (7, 1, 3)])[:n]
+            return ("R", tuple((key, any_type(cx, env, depth - 1)) for key in keys))
         return (kind, tuple((f"f_{chr(97 + i)}", any_type(cx, env, depth - 1)) for i in range(n)))
     if c == 8:
         sp = [t for _, t in seq_paths(cx, env)]
